@@ -230,6 +230,7 @@ pub fn run_c19(cfg: &Cfg) -> (Part, Value, bool) {
                                 }
                             }
                             acts.push(Act::Extend(pattern(d)));
+                            acts.push(Act::ExtendNoHint(pattern(d)));
                         }
                     }
                     // out-of-range indices (must panic with debug assertions; unspecified otherwise)
@@ -248,7 +249,7 @@ pub fn run_c19(cfg: &Cfg) -> (Part, Value, bool) {
                             Act::Resize(t, _) => Some(*t),
                             Act::SignExtend(t) => Some((*t).max(n)),
                             Act::Append(o) | Act::Prepend(o) | Act::Insert(_, o) => Some(n + o.v.len()),
-                            Act::Extend(b) => Some(n + b.len()),
+                            Act::Extend(b) | Act::ExtendNoHint(b) => Some(n + b.len()),
                             _ => None,
                         };
                         if let Some(nl) = newlen {
